@@ -281,3 +281,42 @@ def run(rec):
         rec.case(('site', name), True, sample={'site': name} if name.startswith('FermionSite(N') else None)
     check_grouped(rec, rng)
     check_car(rec, rng, quick)
+    hetero_term_correlations(rec, rng, quick)
+
+
+def hetero_term_correlations(rec, rng, quick):
+    """term correlation functions on a chain of different site types, the terms given relative to an offset: whether a factor needs
+    a Jordan-Wigner string is a question to the site it finally acts on"""
+    from tenpy.networks.terms import TermList
+    fams = dict(mpsgen.site_families())
+    fam = fams['mixed[Spin1,Fermion,Boson | parity]']
+    for L in ((5,) if quick else (5, 6)):
+        for rep in range(2 if quick else 6):
+            psi, v = mpsgen.random_mps(rng, fam, L)
+            sites = psi.sites
+            ferm = [i for i, st in enumerate(sites) if 'C' in st.opnames]
+            if len(ferm) < 2:
+                continue
+            i0, j0 = ferm[0], ferm[1]
+            inp = {'L': L, 'sites': [type(x).__name__ for x in sites], 'left_site': i0, 'right_site': j0}
+            rec.begin(f'C12 heterogeneous term correlations {inp}')
+            rec.case(('hetero', L, rep), True, sample=inp if rep == 0 else None)
+            for x, y in (('C', 'Cd'), ('Cd', 'C')):
+                exp = mpsgen.expect_dense(v, sites, [(x, i0), (y, j0)])
+                # the terms are written at index 0 and moved by the offsets
+                ok, r = rec.guarded('hetero:term_correlation_function_right:exception',
+                                    lambda: psi.term_correlation_function_right([(x, 0)], [(y, 0)], i_L=i0, j_R=[j0]), inp)
+                if ok:
+                    rec.check(abs(np.asarray(r).ravel()[0] - exp) < 1e-9, 'hetero:term_correlation_function_right(offset)', f'<{x}_{i0} {y}_{j0}> = {r} vs dense {exp}', inp)
+                ok, r = rec.guarded('hetero:term_correlation_function_left:exception',
+                                    lambda: psi.term_correlation_function_left([(x, 0)], [(y, 0)], i_L=[i0], j_R=j0), inp)
+                if ok:
+                    rec.check(abs(np.asarray(r).ravel()[0] - exp) < 1e-9, 'hetero:term_correlation_function_left(offset)', f'<{x}_{i0} {y}_{j0}> = {r} vs dense {exp}', inp)
+                ok, r = rec.guarded('hetero:term_list_correlation_function_right:exception',
+                                    lambda: psi.term_list_correlation_function_right(TermList([[(x, 0)]], [1.]), TermList([[(y, 0)]], [1.]), i_L=i0, j_R=[j0]), inp)
+                if ok:
+                    rec.check(abs(np.asarray(r).ravel()[0] - exp) < 1e-9, 'hetero:term_list_correlation_function_right(offset)', f'{r} vs dense {exp}', inp)
+                # the same written with absolute indices
+                ok, ev = rec.guarded('hetero:expectation_value_term:exception', lambda: psi.expectation_value_term([(x, i0), (y, j0)]), inp)
+                if ok:
+                    rec.check(abs(ev - exp) < 1e-9, 'hetero:expectation_value_term', f'{ev} vs dense {exp}', inp)
